@@ -163,13 +163,14 @@ func c14one(c *Ctx, desc c14case) {
 }
 
 func runC14(c *Ctx) error {
-	c.Rule = "string literals as token sequences over {'{{','}}','{','}','a','b','t()','\"','x',' '} (exhaustive up to a length bound, then seeded random longer ones with newline and backslash), each in three variable environments (plain / values containing {{..}} / self-reproducing and '}}{{'), quoted and raw; non-trivial = the token value contains '{{' followed later by '}}'; distinct by (value, environment, raw)"
+	c.Rule = "string literals as token sequences over {'{{','}}','{','}','a','b','t()','\"','x',' '} (exhaustive up to a length bound, then seeded random longer ones with newline and backslash), each in three variable environments (plain / values containing {{..}} / self-reproducing and '}}{{'), quoted and raw; non-trivial = the token value contains '{{' followed later by '}}'; distinct by (value, environment, raw); plus a re-entrant stream (recursion through an interpolated literal, re-evaluation with changing values) checked against strings computed from the program shape"
 	c.BeginCases("From Ecal Require Import Common.Bytes Run.RunC14.", "case", 400)
 
 	alphabet := []string{"{{", "}}", "{", "}", "a", "b", "t()", "\"", "x", " "}
 	var values []string
 	// corpus first: witnesses of the repaired defect
-	corpus := []string{"}}{{", "x{{a}}", "{{a}}{{a}}", "x}}{{a}}", "{{b}}}}", "{{", "}}", "{{}}", "{{{a}}}", "{{a}}}", "{{{{a}}}}"}
+	corpus := []string{"}}{{", "x{{a}}", "{{a}}{{a}}", "x}}{{a}}", "{{b}}}}", "{{", "}}", "{{}}", "{{{a}}}", "{{a}}}", "{{{{a}}}}",
+		"{{5 % 'a'}}", "p{{1 %}}q", "{{raise('E','100%d reached %s')}}", "%{{a}}%d", "{{'%v'}}", "{{a}} {{", "x{{{", "{{a}} {{ b }"}
 	values = append(values, corpus...)
 	maxLen := c.Pick(3, 4)
 	var rec func(prefix string, n int)
@@ -185,7 +186,7 @@ func runC14(c *Ctx) error {
 	}
 	rec("", maxLen)
 	nexh := len(values)
-	ext := append(append([]string{}, alphabet...), "\n", "\\", "{{a}}", "{{b}}", "{{t()}}", "{{ a }}", "{{1+}}", "{{a+b}}")
+	ext := append(append([]string{}, alphabet...), "\n", "\\", "{{a}}", "{{b}}", "{{t()}}", "{{ a }}", "{{1+}}", "{{a+b}}", "%", "%d", "{{5 % 'a'}}", "{{raise('E','%s')}}")
 	for i := 0; i < c.Pick(500, 12000); i++ {
 		n := 4 + c.Rng.Intn(9)
 		var sb strings.Builder
@@ -223,6 +224,62 @@ func runC14(c *Ctx) error {
 			}
 		}
 	}
+	c14reentrant(c)
 	c.Exhaustive = false
 	return nil
+}
+
+// c14reentrant: the same literal evaluated while an evaluation of it is still running
+// (recursion through an interpolation) and re-evaluated with changing variable values.
+// The expected strings are computed here from the shape of the program (Spec: each
+// evaluation substitutes its own expressions' values, left to right, once).
+func c14reentrant(c *Ctx) {
+	nest := func(n int) string { // value of f(n) for  func f(n){ if n==0 {return "x"}; return "a{{f(n-1)}}b" }
+		s := "x"
+		for i := 0; i < n; i++ {
+			s = "a" + s + "b"
+		}
+		return s
+	}
+	var tree func(n int) string // "({{tree(n-1)}} n {{tree(n-1)}})" with tree(0) = "."
+	tree = func(n int) string {
+		if n == 0 {
+			return "."
+		}
+		t := tree(n - 1)
+		return "(" + t + " " + fmt.Sprint(n) + " " + t + ")"
+	}
+	type prog struct {
+		src  string
+		want string
+	}
+	var progs []prog
+	for n := 0; n <= 5; n++ {
+		progs = append(progs, prog{fmt.Sprintf("func f(n) {\n if n == 0 {\n return \"x\"\n }\n return \"a{{f(n-1)}}b\"\n}\nf(%d)", n), nest(n)})
+	}
+	for n := 0; n <= 4; n++ {
+		progs = append(progs, prog{fmt.Sprintf("func tree(n) {\n if n == 0 {\n return \".\"\n }\n return \"({{tree(n-1)}} {{n}} {{tree(n-1)}})\"\n}\ntree(%d)", n), tree(n)})
+	}
+	// the same literal re-evaluated in a loop with changing values
+	progs = append(progs, prog{"r := []\nfor i in range(1, 4) {\n r := add(r, \"<{{i}}:{{i * 2}}>\")\n}\nr", "[<1:2> <2:4> <3:6> <4:8>]"})
+	progs = append(progs, prog{"func g(v) {\n return \"[{{v}}]\"\n}\n[g(1), g(r\"{{v}}\"), g(3)]", "[[1] [{{v}}] [3]]"})
+	for _, p := range progs {
+		desc := map[string]interface{}{"stream": "reentrant", "source": p.src, "expected": p.want}
+		r := guarded(5*time.Second, func() (interface{}, error) { return evalProgram("c14", p.src, nil, nil) })
+		c.Count("reentrant:"+p.src, true, desc)
+		c.Dist["reentrant"]++
+		switch {
+		case r.TimedOut:
+			c.Violate("nontermination", "evaluation did not finish within 5s", desc)
+		case r.Panicked:
+			c.Violate("panic", "evaluation panicked: "+r.PanicMsg, desc)
+		case r.Err != nil:
+			c.Violate("error", "evaluation returned an error: "+r.Err.Error(), desc)
+		default:
+			if got := fmt.Sprint(r.Val); got != p.want {
+				desc["got"] = got
+				c.Violate("interp-reentrant", "a literal evaluated while another evaluation of the same literal is running (or re-evaluated with new values) gave "+got+" instead of "+p.want, desc)
+			}
+		}
+	}
 }
